@@ -1,4 +1,5 @@
 mod cluster;
+mod exec;
 mod kit;
 
 use kit::report::{self, CheckSpec, RunFn, Tier};
@@ -58,6 +59,29 @@ fn registry(prop: &str) -> Option<(CheckSpec, RunFn, Cands)> {
             s.expected_probes = &["multi_table_gather", "pruned_gather"];
             Some((s, cluster::faults::run_c45, cluster::runs::shrink_candidates))
         }
+        "C04" | "C07" | "C08" => {
+            let (p, rule, f): (&'static str, &'static str, RunFn) = match prop {
+                "C04" => ("C04", "one run = one seeded scenario (1-3 generated tables, 10 statements of every family) executed in a baseline world (memory, one batch, one worker) and in 3 Parquet worlds (1-5 files, row groups of 1..4096 rows, dictionary and statistics on/off, morsel execution on/off) plus one multi-batch memory world; class and canonical rows of every world must equal the baseline's, in both directions; distinct = distinct (physical plan text, world vector, family)", exec::run_c04),
+                "C07" => ("C07", "one run = one seeded scenario (tables of 1000-6000 rows so scans split into partitions, 8 statements) executed in the baseline world and in worlds that vary the batch split (1-14 batches incl. empty), the worker count (1-16; the scan partition count follows it as shipped) and the tokio flavour; distinct = distinct (physical plan text, world vector, family)", exec::run_c07),
+                _ => ("C08", "one run = one seeded scenario (sorts with LIMIT/OFFSET and NULLS FIRST/LAST, grouped/global aggregates, joins of every type, DISTINCT, set operations over 200-4000 rows) executed with an unlimited budget and under 4 seeded budgets swept over the scenario's own size estimates (64 B .. multiples of the data size), spill thresholds 0.1-1.0 and batch sizes 1-1024; a world may fail with an explicit error, it may not answer different rows; distinct = distinct (physical plan text, world vector, family)", exec::run_c08),
+            };
+            let s = CheckSpec {
+                prop: p,
+                engine: "exec-sim",
+                level: "exploration",
+                rule,
+                runs_quick: 240,
+                runs_thorough: 12000,
+                secs_quick: 60,
+                secs_thorough: 900,
+                gate_runs: 16,
+                real: &["parser", "binder", "optimizer", "physical planner", "all physical operators incl. spillable join/aggregate/sort", "Parquet readers (eager, streaming, morsel)", "ExecutionContext::sql"],
+                stub: &[],
+                assumptions: &["the baseline world of the same engine is the oracle: a semantics bug shared by every world is invisible by construction", "generated DOUBLE values are dyadic so sums are exact in any order", "worlds with more than one rayon worker or a multi-threaded tokio runtime are seeded samples of real executions (their results are excluded from the replay hash)"],
+                expected_probes: &[],
+            };
+            Some((s, f, exec::shrink_candidates))
+        }
         _ => None,
     }
 }
@@ -111,7 +135,12 @@ fn main() {
             let sql = args.get(4).cloned().unwrap_or_else(|| doc["context"]["sql"].as_str().unwrap_or("").to_string());
             let nodes = args.get(5).and_then(|s| s.parse().ok()).unwrap_or(doc["context"]["nodes"].as_u64().unwrap_or(1) as usize);
             let init = args.get(6).and_then(|s| s.parse().ok()).unwrap_or(doc["context"]["initiator"].as_u64().unwrap_or(0) as usize);
-            cluster::runs::debug_sql(rs, &doc["overrides"], &sql, nodes, init);
+            match prop {
+                "C04" => exec::debug(exec::Prop::C04, &doc, args.get(4).map(|s| s.as_str())),
+                "C07" => exec::debug(exec::Prop::C07, &doc, args.get(4).map(|s| s.as_str())),
+                "C08" => exec::debug(exec::Prop::C08, &doc, args.get(4).map(|s| s.as_str())),
+                _ => cluster::runs::debug_sql(rs, &doc["overrides"], &sql, nodes, init),
+            }
             let _ = std::fs::remove_dir_all(report::scratch_root());
         }
         _ => {
